@@ -1,0 +1,14 @@
+//go:build verif
+
+package file
+
+import "context"
+
+// VerifHook, when non-nil, is called at the instrumented points of the watch loop.
+var VerifHook func(ctx context.Context, point string, kv ...any)
+
+func verifPoint(ctx context.Context, point string, kv ...any) {
+	if h := VerifHook; h != nil {
+		h(ctx, point, kv...)
+	}
+}
